@@ -4,19 +4,19 @@ CONSTANTS MinReq = 2
  MaxPrios = 1000
  SortInput = TRUE
  N = 3
- Real = {1, 2, 3}
+ Real = {1}
  Slots = {1}
  ExT = 1
  SlotLen = 0
- DLOff = 50
+ DLOff = 2
  LocalProtocols <- LP
  LocalProposals <- LP
  V2Versions = {"v2", "v3"}
  DupPolicy = "first"
- MaxTime = 1
+ MaxTime = 2
  MaxInject = 1
- Malformed = FALSE
- Lossy = FALSE
- WithDecide = FALSE
-INVARIANTS Safety NoAbort FullExchangeAgree
+ Malformed = TRUE
+ Lossy = TRUE
+ WithDecide = TRUE
+INVARIANTS NoAbort
 CHECK_DEADLOCK FALSE
